@@ -41,7 +41,7 @@ Qed.
 Lemma on_signal_quiet : forall v g c s, forallb quiet (on_signal v g c s) = true.
 Proof.
   intros v g c s. destruct s as [dn fl pd lk rn cp ax ht hi cl nt].
-  destruct v, g, c, ht, hi, ax, cl, nt, lk, pd; reflexivity.
+  destruct v, g, c, ht, hi, ax, cl, nt, lk, pd, dn; reflexivity.
 Qed.
 
 Lemma run_effs_app : forall a b s, run_effs (a ++ b) s = run_effs b (run_effs a s).
@@ -648,4 +648,26 @@ Proof. exists fresh. split; [apply Inv_fresh|]. vm_compute. repeat split; reflex
 Lemma notify_first_quiet : forall v o d, map snd (runner_n NotifyFirst false v o (boot d)) = trace v o d.
 Proof.
   intros v o d. split_dir d. destruct dn, fl, v; split_outcome o; reflexivity.
+Qed.
+
+(* ================================================================== round 7 *)
+(* the relaunch of a finished job, whatever signal it gets and wherever: the literal handler (code of /repo
+   c09fbf1, variant Fixed stands for it here) writes a failure marker next to the success marker ... *)
+Lemma relaunch_of_finished_job_marks_failed_refuted :
+  exists d k, Inv d /\ d_done d = true /\ d_failed d = None /\
+    d_failed (launch Fixed d OOk (Some (STerm, k, CTry))) = Some 1%Z /\
+    d_done (launch Fixed d OOk (Some (STerm, k, CTry))) = true.
+Proof.
+  exists (launch Fixed fresh OOk None), 6. split; [apply kill_anywhere, Inv_fresh|].
+  vm_compute. repeat split; reflexivity.
+Qed.
+
+(* ... the repaired one never does: a launch that finds the success marker leaves the failure marker as it was *)
+Lemma relaunch_of_finished_job_keeps_failed : forall d o dth, d_done d = true ->
+  d_failed (launch Guarded d o dth) = d_failed d.
+Proof.
+  intros d o dth. split_dir d. simpl. intros ->.
+  destruct dth as [[[g k] c]|].
+  - destruct fl; split_outcome o; destruct g, c; split_k k ltac:(reflexivity).
+  - destruct fl; split_outcome o; reflexivity.
 Qed.
